@@ -243,10 +243,50 @@ def _frame(c, d):
     return df, feats
 
 
+_PERCALL = ("percall", "kfold-unseeded", "single-unseeded")
+
+
+def _percall_folds(n, k, step, callno):
+    """the split the recording cv stub returns on its `callno`-th call (0-based): positions rotated by callno*step,
+    reversed on odd calls, then k contiguous test blocks"""
+    perm = [(i + callno * step) % n for i in range(n)]
+    if callno % 2:
+        perm.reverse()
+    out, start = [], 0
+    for f in range(k):
+        size = n // k + (1 if f < n % k else 0)
+        test = perm[start:start + size]
+        out.append((perm[:start] + perm[start + size:], test))
+        start += size
+    return out
+
+
+class C19CallCV:
+    """a cv object that answers every call of split() with ANOTHER split (deterministic in the call count), like
+    an unseeded shuffling splitter; the orchestrator asks once per (dataset, strategy)"""
+
+    def __init__(self, k, step):
+        self.k, self.step, self.calls = k, step, 0
+
+    def split(self, data, y=None, groups=None):
+        folds = _percall_folds(len(data), self.k, self.step, self.calls)
+        self.calls += 1
+        return iter([(np.array(a), np.array(b)) for a, b in folds])
+
+    def get_n_splits(self, *a, **k):
+        return self.k
+
+
 def _cv_object(c):
     from sklearn.model_selection import KFold
     from sktime.series_as_features.model_selection import PresplitFilesCV, SingleSplit
     cv = c["cv"]
+    if cv["kind"] == "percall":
+        return C19CallCV(cv["k"], cv["step"])
+    if cv["kind"] == "kfold-unseeded":     # global numpy RNG, seeded by the harness before each run
+        return KFold(cv["k"], shuffle=True)
+    if cv["kind"] == "single-unseeded":
+        return SingleSplit(test_size=cv["t"])
     if cv["kind"] == "kfold":
         return KFold(cv["k"], shuffle=True, random_state=cv["rs"]) if cv.get("shuffle") else KFold(cv["k"])
     if cv["kind"] == "single":
@@ -258,11 +298,50 @@ def _cv_object(c):
     raise ValueError(cv)
 
 
-def _folds(c, d):
-    """the folds the cv scheme defines for dataset d, computed WITHOUT sktime (sklearn / index arithmetic only)"""
+_FOLD_CACHE = {}
+
+
+def _folds_per_call(c):
+    """{(dataset index, strategy index): folds} for cv objects that split anew on every call: the orchestrator calls
+    cv.split once per (dataset, strategy), datasets outer, all strategies of the case; replayed here WITHOUT sktime"""
+    from sklearn.model_selection import KFold, train_test_split
+    import json as _json
+    key = _json.dumps([c["cv"], [len(d["rows"]) for d in c["datasets"]], len(c["strategies"])])
+    if key in _FOLD_CACHE:
+        return _FOLD_CACHE[key]
+    cv, ns, out = c["cv"], len(c["strategies"]), {}
+    state = np.random.get_state()
+    try:
+        if cv["kind"] != "percall":
+            np.random.seed(cv["rs"])
+        for di, d in enumerate(c["datasets"]):
+            n = len(d["rows"])
+            for si in range(ns):
+                if cv["kind"] == "percall":
+                    f = _percall_folds(n, cv["k"], cv["step"], di * ns + si)
+                elif cv["kind"] == "kfold-unseeded":
+                    f = [([int(i) for i in a], [int(i) for i in b]) for a, b in KFold(cv["k"], shuffle=True).split(np.arange(n))]
+                else:
+                    a, b = train_test_split(np.arange(n), test_size=cv["t"])
+                    f = [([int(i) for i in a], [int(i) for i in b])]
+                out[(di, si)] = f
+    finally:
+        np.random.set_state(state)
+    if len(_FOLD_CACHE) > 64:
+        _FOLD_CACHE.clear()
+    _FOLD_CACHE[key] = out
+    return out
+
+
+def _folds(c, d, si=0):
+    """the folds the cv scheme defines for dataset d (and, for per-call schemes, strategy number si), computed
+    WITHOUT sktime (sklearn / index arithmetic only)"""
     from sklearn.model_selection import KFold, train_test_split
     n = len(d["rows"])
     cv = c["cv"]
+    if cv["kind"] in _PERCALL:
+        di = [x["name"] for x in c["datasets"]].index(d["name"])
+        return _folds_per_call(c)[(di, si)]
     if cv["kind"] == "kfold":
         kf = KFold(cv["k"], shuffle=True, random_state=cv["rs"]) if cv.get("shuffle") else KFold(cv["k"])
         return [([int(i) for i in a], [int(i) for i in b]) for a, b in kf.split(np.arange(n))]
@@ -505,6 +584,8 @@ def run_real(c):
                 if not hdd:
                     prev_recs, prev_strats = {}, {}
             _STATE["n"] = 0; _STATE["fail"] = run["fail"]; _STATE["log"] = []; _STATE["cols"] = set()
+            if c["cv"]["kind"] in ("kfold-unseeded", "single-unseeded"):
+                np.random.seed(c["cv"]["rs"])
             try:
                 orch = Orchestrator(tasks, datasets, strategies, cv, res)
                 orch.fit_predict(overwrite_predictions=run["owP"], predict_on_train=run["pot"],
@@ -571,6 +652,9 @@ def to_line(c):
         cvs = "single:%d" % cv["t"]
     elif cv["kind"] == "presplit":
         cvs = "presplit:%s" % ("none" if cv["k"] is None else cv["k"])
+    elif cv["kind"] in _PERCALL:  # another split per call of cv.split: folds per dataset and strategy
+        fstr = lambda fs: _join(["%s>%s" % (_ints(a), _ints(b)) for a, b in fs], "|")
+        cvs = "givenps:" + ";".join("!".join(fstr(_folds(c, d, si)) for si in range(len(c["strategies"]))) for d in c["datasets"])
     else:  # library randomness: the folds are data for the model
         cvs = "given:" + ";".join(_join(["%s>%s" % (_ints(a), _ints(b)) for a, b in _folds(c, d)], "|") for d in c["datasets"])
     runs = ["%s%s%s%s:%s:%s:%d" % (show_bool(r["owP"]), show_bool(r["owF"]), show_bool(r["saveF"]), show_bool(r["pot"]),
@@ -634,7 +718,7 @@ def _honest(c):
         X = [[r[i] for i in fcols] for r in d["rows"]]
         y = [r[d["tpos"]] for r in d["rows"]]
         for s in c["strategies"]:
-            for f, (tr, te) in enumerate(_folds(c, d)):
+            for f, (tr, te) in enumerate(_folds(c, d, [x["name"] for x in c["strategies"]].index(s["name"]))):
                 w = Fraction(s["p"]) + _fit_chk([X[i] for i in tr], [y[i] for i in tr])
                 ws[(s["name"], d["name"], f)] = show_rat(w)
                 sig[(s["name"], d["name"], f, "fit")] = "f:%d:%d:%d:%s:0" % (s["p"], len(tr), len(fcols), show_rat(_fit_chk([X[i] for i in tr], [y[i] for i in tr])))
@@ -1077,7 +1161,7 @@ def _small_configs(rng, tier):
     cfgs.append({"store": "hdd", "learner": ["cls", 3], "labels": "int",
                  "datasets": [_dataset(rng, "d0", 4, 3, 3, explicit=False, rowidx="perm")],
                  "strategies": [{"name": "s0", "p": 1}, {"name": "s1", "p": 2}],
-                 "cv": {"kind": "kfold", "k": 2}, "proba": "last"})
+                 "cv": {"kind": "percall", "k": 2, "step": 1}, "proba": "last"})   # another split for every strategy
     # B: 1 strategy x 2 datasets x single split (regression)
     cfgs.append(_apply_tdtype({"store": "hdd", "learner": ["reg"], "labels": "int",
                  "datasets": [_dataset(rng, "da", 5, 2, 0, explicit=False, rowidx="gaps"),
@@ -1094,7 +1178,7 @@ def _small_configs(rng, tier):
         cfgs.append(_apply_tdtype({"store": "hdd", "learner": ["reg"], "labels": "int",
                      "datasets": [_dataset(rng, "d0", 6, 3, 0, rowidx=False), _dataset(rng, "d1", 7, 2, 0, rowidx="permoff")],
                      "strategies": [{"name": "s0", "p": 1}, {"name": "s1", "p": 4}],
-                     "cv": {"kind": "kfold", "k": 3}}, "int32"))
+                     "cv": {"kind": "kfold-unseeded", "k": 3, "rs": 11}}, "int32"))
     return cfgs
 
 
@@ -1124,7 +1208,7 @@ def _exhaustive(rng, tier):
                         runs.append(_opts(owF=True, saveF=True, pot=pot, fresh=rng.random() < 0.5))
                     cases.append(dict(cfg, kind="hist", runs=runs))
         # a benchmark that grows: first run with one strategy, later runs add the others (master file is merged)
-        if len(cfg["strategies"]) > 1:
+        if len(cfg["strategies"]) > 1 and not (cfg["cv"]["kind"] in _PERCALL and len(cfg["datasets"]) > 1):
             for saveF in (True, False):
                 for fresh in (True, False):
                     for k in (None, 2, 3):
@@ -1151,8 +1235,11 @@ _DNAMES = ["d0", "d1", "gun", "b_c", "t_1", "c"]
 def _random_case(rng):
     ncls = rng.choice([0, 2, 3])
     store = "hdd" if rng.random() < 0.75 else "ram"
-    kind = rng.choice(["kfold", "kfold", "kfold-shuffle", "single", "single-shuffle", "presplit", "presplit-inner"])
+    kind = rng.choice(["kfold", "kfold", "kfold-shuffle", "single", "single-shuffle", "presplit", "presplit-inner",
+                       "percall", "percall", "kfold-unseeded", "single-unseeded"])
     nd = rng.choice([1, 1, 2, 2, 3]); ns = rng.choice([1, 2, 2, 3])
+    if kind in _PERCALL:   # another split per (dataset, strategy): several of both
+        nd = rng.choice([2, 2, 3]); ns = rng.choice([2, 2, 3])
     snames = rng.sample(_NAMES, ns)
     dnames = rng.sample(_DNAMES, nd)
     dss = []
@@ -1160,7 +1247,13 @@ def _random_case(rng):
         n = rng.randrange(5, 10)
         ncols = 13 if rng.random() < 0.1 else rng.randrange(2, 5)   # 13: dim_0..dim_11 sort as dim_0, dim_1, dim_10, ...
         dss.append(_dataset(rng, nm, n, ncols, ncls, presplit=kind.startswith("presplit")))
-    if kind.startswith("kfold"):
+    if kind == "percall":
+        cv = {"kind": "percall", "k": rng.choice([2, 3]), "step": rng.choice([1, 2, 3])}
+    elif kind == "kfold-unseeded":
+        cv = {"kind": "kfold-unseeded", "k": rng.choice([2, 3]), "rs": rng.randrange(100)}
+    elif kind == "single-unseeded":
+        cv = {"kind": "single-unseeded", "t": rng.choice([1, 2, 3]), "rs": rng.randrange(100)}
+    elif kind.startswith("kfold"):
         cv = {"kind": "kfold", "k": rng.choice([2, 3]), "shuffle": kind.endswith("shuffle"), "rs": rng.randrange(100)}
     elif kind.startswith("single"):
         cv = {"kind": "single", "t": rng.choice([1, 2, 3]), "shuffle": kind.endswith("shuffle"), "rs": rng.randrange(100)}
@@ -1185,7 +1278,7 @@ def _random_case(rng):
         total = _ncalls(c, pot)
         fail = rng.randrange(1, total + 3) if rng.random() < 0.45 else None
         runs.append(_opts(owP=owP, owF=owF, saveF=saveF, pot=pot, fail=fail, fresh=(i == 0) or rng.random() < 0.6))
-    if ns > 1 and rng.random() < 0.3:      # growing benchmark
+    if ns > 1 and rng.random() < 0.3 and kind not in _PERCALL:      # growing benchmark
         cur = 1
         for r in runs:
             r["ns"] = cur
